@@ -5,6 +5,7 @@ import (
 	"fmt"
 	"io"
 	"os"
+	"os/signal"
 	"path/filepath"
 	"runtime"
 	"sort"
@@ -116,9 +117,11 @@ func or(v, d int) int {
 //	mark:<text>    append a line to the event file
 type Trigger struct {
 	Name  string   `json:"name"`
-	Match []string `json:"match"`
-	N     int      `json:"n"` // 0 = every hit
-	Do    []string `json:"do"`
+	Match []string `json:"match,omitempty"`
+	// Key, when set, selects the point exactly: the id with its line number removed (PointKey).
+	Key string   `json:"key,omitempty"`
+	N   int      `json:"n"` // 0 = every hit
+	Do  []string `json:"do"`
 }
 
 // ChildSpec describes one child run.
@@ -133,6 +136,7 @@ type ChildSpec struct {
 	Quiesce      bool      `json:"quiesce"`
 	StaleClaimed int       `json:"stale_claimed"` // rows that were already CLAIMED before this run started
 	DeadlineS    int       `json:"deadline_s"`    // drain deadline, default 60
+	WatchdogS    int       `json:"watchdog_s"`    // hard cap of the parent on this run, default 60
 	Profile      bool      `json:"profile"`
 	Triggers     []Trigger `json:"triggers"`
 	// FallbackStop (signals mode): when no stopping trigger has fired FallbackMS after all work was done, SIGTERM anyway.
@@ -155,6 +159,9 @@ var QueueState func() (fresh, claimed int, err error)
 
 // ReactorTracked is installed by harnesses: number of seeds in the reactor's state table.
 var ReactorTracked func() int
+
+// ExitEngine is the exit status of a child that gave up for a reason of the harness (never a verdict).
+const ExitEngine = 97
 
 // IsChild reports whether this process was started as a child (argv: --child <spec.json>).
 func IsChild() bool { return len(os.Args) >= 3 && os.Args[1] == "--child" }
@@ -181,6 +188,13 @@ func (c *childState) event(format string, a ...any) {
 	c.evMu.Lock()
 	fmt.Fprintf(c.ev, "%.3f "+format+"\n", append([]any{time.Since(c.t0).Seconds()}, a...)...)
 	c.evMu.Unlock()
+}
+
+func (t *Trigger) matches(id string) bool {
+	if t.Key != "" {
+		return PointKey(id) == t.Key
+	}
+	return match(id, t.Match)
 }
 
 func match(id string, subs []string) bool {
@@ -228,7 +242,7 @@ func ChildMain() {
 		t := spec.Triggers[i]
 		if t.N == 0 {
 			vsched.OnPoint(func(id string) bool {
-				if match(id, t.Match) {
+				if t.matches(id) {
 					c.fire(&t, id)
 				}
 				return false
@@ -237,7 +251,7 @@ func ChildMain() {
 		}
 		var lastID atomic.Value
 		vsched.OnPoint(func(id string) bool {
-			if match(id, t.Match) {
+			if t.matches(id) {
 				lastID.Store(id)
 				return true
 			}
@@ -270,6 +284,17 @@ func ChildMain() {
 		}
 		return false
 	}, 1, func() {})
+	if spec.Mode != "signals" {
+		// the parent can ask for controler.Stop() with SIGUSR1 (moments it owns, e.g. while the origin holds a response)
+		usr := make(chan os.Signal, 1)
+		signal.Notify(usr, syscall.SIGUSR1)
+		go func() {
+			<-usr
+			c.event("stop requested by the parent (SIGUSR1)")
+			c.stopFired.Store(true)
+			c.stopReqO.Do(func() { close(c.stopReq) })
+		}()
+	}
 	c.event("starting mode=%s conf=%s", spec.Mode, spec.Conf)
 	controler.Start()
 	c.event("started")
@@ -404,8 +429,10 @@ func (c *childState) fire(t *Trigger, id string) {
 					}
 					select {
 					case <-c.watched:
-					case <-time.After(10 * time.Second):
-						c.event("WatchSignals not reached within 10 s")
+					case <-time.After(40 * time.Second):
+						// never turn a slow start-up into a signal Zeno cannot see: give up on the case
+						c.event("engine-abort: controler.WatchSignals() not reached within 40 s of the trigger")
+						os.Exit(ExitEngine)
 					}
 				}
 			}
